@@ -102,7 +102,7 @@ SCOPES = {
         contents=["c1", "c2"], roots=[P(), P("d")], fmtchoices=[["md5"]],
         pats=[(), ("n:x",), ("g:tmp",), ("n:g",), ("n:x", "g:tmp")], sf=[],
         ops=["alter", "delete", "create", "verify", "diff"], maxgens=2, maxops=4, keepsnap=False,
-        mutable=[P("x"), P("d", "x"), P("a"), P("d", "dsstore")],
+        mutable=[P("x"), P("d", "x"), P("a")],
         patnames={"n:x": ["x"], "g:tmp": ["k_t"], "n:g": ["g"], ".DS_Store": ["dsstore"]},
     ),
     # renames with -dr
